@@ -196,7 +196,16 @@ class MultiAgentReplayBuffer:
             return np.array(value) if not isinstance(value, np.ndarray) else value
 
         results = [[] for _ in range(len(args))]
-        num_entries = len(next(iter(args[0].values())))
+        first_value = next(iter(args[0].values()))
+        while isinstance(first_value, (dict, tuple)):
+            # Dict / Tuple observations: the number of environments is the
+            # leading dimension of a member array, not the number of members
+            first_value = (
+                next(iter(first_value.values()))
+                if isinstance(first_value, dict)
+                else first_value[0]
+            )
+        num_entries = len(first_value)
         for i in range(num_entries):
             for j, arg in enumerate(args):
                 new_dict = {}
